@@ -1392,6 +1392,27 @@ def _b_bisect_right(M, I, args, kw, node):
     return p
 
 
+def _b_bisect_left(M, I, args, kw, node):
+    """bisect.bisect_left(a, x) on a sorted list (documented contract): the insertion point p with
+    all(e < x for e in a[:p]) and all(e >= x for e in a[p:])"""
+    a, x = args[0], args[1]
+    sl = M.as_seq(I, a, node)
+    n = to_int(sl.n)
+    i, j = z3.Int('i!bl%d' % I.ctx.counter.setdefault('bl', 0)), z3.Int('j!bl%d' % I.ctx.counter.setdefault('bl', 0))
+    I.ctx.counter['bl'] += 1
+    ei, ej = to_int(sl.elem(i)), to_int(sl.elem(j))
+    if not I.pure:
+        I.ctx.oblige(I.oname('call-pre[bisect_left:sorted]', line_of(node)),
+                     z3.ForAll([i, j], z3.Implies(z3.And(0 <= i, i < j, j < n), ei <= ej)), 'call-pre', line_of(node))
+    p = I.ctx.const('bisectl', IntS)
+    xv = to_int(x)
+    I.ctx.assume(z3.And(p >= 0, p <= n))
+    I.ctx.assume(z3.ForAll([i], z3.Implies(z3.And(i >= 0, i < p), ei < xv), patterns=[ei]))
+    I.ctx.assume(z3.ForAll([i], z3.Implies(z3.And(i >= p, i < n), ei >= xv), patterns=[ei]))
+    I.assumptions.add('bisect.bisect_left behaves as documented on a sorted list')
+    return p
+
+
 def _b_from_bytes(M, I, args, kw, node):
     data = args[0]
     order = args[1] if len(args) > 1 else kw.get('byteorder', 'big')
@@ -1438,6 +1459,7 @@ _BUILTIN_TABLE[_copy_mod.copy] = _b_copy
 _BUILTIN_TABLE[_copy_mod.deepcopy] = _b_deepcopy
 import bisect as _bisect_mod
 _BUILTIN_TABLE[_bisect_mod.bisect_right] = _b_bisect_right
+_BUILTIN_TABLE[_bisect_mod.bisect_left] = _b_bisect_left
 import zlib as _zlib
 _BUILTIN_TABLE[_zlib.decompressobj] = _b_decompressobj
 
